@@ -81,8 +81,8 @@ func runC08(c *core.Ctx) {
 	c.Rule("R3", "registration time: fresh time.Now() only when the own entry is missing, otherwise the recorded value", 4)
 	c.Rule("R4", "tokens are generated against the ring read in the same CAS attempt", 4)
 	c.Rule("R5", "readiness latch", 3)
-	c.Rule("R6", "single actor: exported lifecycler methods reach a KV CAS only through the actor loop", 20)
-	c.Rule("R7", "published token lists are sorted", 8)
+	c.Rule("R6", "single actor: exported lifecycler methods reach a KV CAS only through the actor loop", 28)
+	c.Rule("R7", "published token lists are sorted", 12)
 	c.Rule("R9", "token top-up: request (target − held) tokens and append them to the held list, so a fresh join ends with the configured count and inherited tokens are kept", 5)
 	c.Rule("R8", "tokens inherited from the ring are kept: a heartbeat re-publishes the ring entry's tokens when the entry exists, the remembered ones only when it is missing", 6)
 	pkg := c.Prog.Pkg("ring")
